@@ -115,6 +115,17 @@ func solveOne(u *Universe, o *Obligation, outDir string, timeoutS int, seed int)
 		if v.Result == "unknown" || v.Result == "timeout" {
 			v.OK = true
 		}
+		if v.Result == "unsat" && o.PreBody != "" {
+			// dead after the call: fine only if the path was dead before it as well
+			po := &Obligation{Name: o.Name + ".before", Kind: "cover", Body: o.PreBody, ExpectSat: true, Goal: o.Goal}
+			pv := solveOne(u, po, outDir, timeoutS, seed)
+			if pv.Result == "sat" {
+				v.Output += "\nlive before the call: " + pv.Output
+			} else {
+				v.OK = true
+				v.Result = "dead-path"
+			}
+		}
 	} else {
 		v.OK = v.Result == "unsat"
 	}
